@@ -1,4 +1,4 @@
-\* EXPECTED VIOLATION (lead, not reproduced on the code): the two critical sections of removeConnection let an older session delete the adjacency edge a newer session of the same peer has just entered
+\* EXPECTED VIOLATION (what the code does; replayed on the real code with a gate by vsl scenario gate_remove_race): the two critical sections of removeConnection let an older session delete the adjacency edge a newer session of the same peer has just entered
 SPECIFICATION Spec
 CONSTANTS
   Links = {1}
